@@ -54,6 +54,8 @@ pub fn model_of_kt(t: &TooDee<Kt>) -> Model<(u8, u16)> {
 #[derive(Clone, Copy, Debug, PartialEq, Eq, Hash)]
 pub enum RK {
     Owned,
+    /// owned array whose Vec has room for at least two more rows (spare capacity)
+    OwnedSpare,
     ViewMut,
     Nested,
     ForeignOwned,
@@ -87,6 +89,9 @@ impl Recv {
     pub fn owned(c: usize, r: usize) -> Recv {
         Recv { kind: RK::Owned, pc: c, pr: r, s: (0, 0), e: (c, r), s2: (0, 0), e2: (0, 0) }
     }
+    pub fn owned_spare(c: usize, r: usize) -> Recv {
+        Recv { kind: RK::OwnedSpare, ..Recv::owned(c, r) }
+    }
     pub fn foreign_owned(c: usize, r: usize) -> Recv {
         Recv { kind: RK::ForeignOwned, ..Recv::owned(c, r) }
     }
@@ -107,7 +112,7 @@ impl Recv {
     /// Absolute rectangle (start, end) inside the parent; an empty window is reported as (s, s).
     pub fn rect(&self) -> (Coordinate, Coordinate) {
         match self.kind {
-            RK::Owned | RK::ForeignOwned => ((0, 0), (self.pc, self.pr)),
+            RK::Owned | RK::OwnedSpare | RK::ForeignOwned => ((0, 0), (self.pc, self.pr)),
             RK::ViewMut | RK::ForeignWindow | RK::DirectLong => norm(self.s, self.e),
             RK::Nested => {
                 let (os, oe) = norm(self.s, self.e);
@@ -131,6 +136,7 @@ impl Recv {
     pub fn enc(&self) -> String {
         match self.kind {
             RK::Owned => format!("O{}x{}", self.pc, self.pr),
+            RK::OwnedSpare => format!("OS{}x{}", self.pc, self.pr),
             RK::ForeignOwned => format!("FO{}x{}", self.pc, self.pr),
             RK::ViewMut => format!("V{}x{}[{},{}-{},{}]", self.pc, self.pr, self.s.0, self.s.1, self.e.0, self.e.1),
             RK::ForeignWindow => format!("FW{}x{}[{},{}-{},{}]", self.pc, self.pr, self.s.0, self.s.1, self.e.0, self.e.1),
@@ -145,6 +151,9 @@ impl Recv {
         let nums: Vec<usize> = s.split(|ch: char| !ch.is_ascii_digit()).filter(|x| !x.is_empty()).map(|x| x.parse().unwrap()).collect();
         if s.starts_with("DL") {
             return Recv { kind: RK::DirectLong, pc: nums[0], pr: nums[1], s: (0, 0), e: (nums[2], nums[3]), s2: (0, 0), e2: (0, 0) };
+        }
+        if s.starts_with("OS") {
+            return Recv::owned_spare(nums[0], nums[1]);
         }
         if s.starts_with("FO") {
             Recv::foreign_owned(nums[0], nums[1])
@@ -250,6 +259,12 @@ macro_rules! with_recv {
                 let $r = &mut $parent;
                 $body
             }
+            RK::OwnedSpare => {
+                let extra__ = $parent.num_cols() * 2 + 3;
+                $parent.reserve(extra__);
+                let $r = &mut $parent;
+                $body
+            }
             RK::ViewMut => {
                 let mut vm__ = $parent.view_mut($rd.s, $rd.e);
                 let $r = &mut vm__;
@@ -289,11 +304,19 @@ macro_rules! with_recv {
 
 /// All receivers over parents up to n x n: owned shapes, every window (ViewMut), optionally the
 /// third-party implementors and nested windows (windows of windows of the n x n parent only).
-pub fn receivers(n: usize, foreign: bool, nested: bool, windows_of: &[(usize, usize)]) -> Vec<Recv> {
+#[derive(Clone, Copy, PartialEq, Eq)]
+pub enum Nest {
+    No,
+    /// windows of three outer windows of each listed parent: (1,1)-(pc,pr), (0,0)-(pc-1,pr-1), (1,0)-(pc-1,pr)
+    Sample,
+    All,
+}
+pub fn receivers(n: usize, foreign: bool, nested: Nest, windows_of: &[(usize, usize)]) -> Vec<Recv> {
     use crate::engine::util::{shapes, windows};
     let mut v = Vec::new();
     for (c, r) in shapes(n) {
         v.push(Recv::owned(c, r));
+        v.push(Recv::owned_spare(c, r));
         v.push(Recv::direct_long(c, r));
         if foreign {
             v.push(Recv::foreign_owned(c, r));
@@ -305,7 +328,8 @@ pub fn receivers(n: usize, foreign: bool, nested: bool, windows_of: &[(usize, us
             if foreign {
                 v.push(Recv::foreign_window(pc, pr, s, e));
             }
-            if nested && e.0 > s.0 && e.1 > s.1 {
+            let sampled = (s, e) == ((1, 1), (pc, pr)) || (s, e) == ((0, 0), (pc - 1, pr - 1)) || (s, e) == ((1, 0), (pc - 1, pr));
+            if (nested == Nest::All || (nested == Nest::Sample && sampled)) && e.0 > s.0 && e.1 > s.1 {
                 let (wc, wr) = (e.0 - s.0, e.1 - s.1);
                 for (s2, e2) in windows(wc, wr) {
                     v.push(Recv::nested(pc, pr, s, e, s2, e2));
